@@ -8,6 +8,8 @@ pub mod p_ints;
 pub mod ops;
 pub mod bfs;
 pub mod p_factory;
+pub mod p_cc14;
+pub mod p_nrpn;
 
 use engine::{CheckResult, Ctx, Report};
 use serde_json::Value;
@@ -20,6 +22,11 @@ pub fn run_property(ctx: &Ctx) -> Option<Report> {
         "C04" => Some(p_ints::run_ints(ctx, p_ints::Mode::C04)),
         "C05" => Some(p_ints::run_ints(ctx, p_ints::Mode::C05)),
         "C06" => Some(p_factory::run_c06(ctx)),
+        "C07" => Some(p_cc14::run_c07(ctx)),
+        "C08" => Some(p_cc14::run_c08(ctx)),
+        "C09" => Some(p_nrpn::run_c09(ctx)),
+        "C10" => Some(p_nrpn::run_c10(ctx)),
+        "C11" => Some(p_nrpn::run_c11(ctx)),
         _ => None,
     }
 }
@@ -32,6 +39,11 @@ pub fn replay_case(prop: &str, sub: &str, case: &Value) -> Option<CheckResult> {
         "C04" => p_ints::replay_ints(p_ints::Mode::C04, sub, case),
         "C05" => p_ints::replay_ints(p_ints::Mode::C05, sub, case),
         "C06" => p_factory::replay_c06(sub, case),
+        "C07" => p_cc14::replay_c07(sub, case),
+        "C08" => p_cc14::replay_c08(sub, case),
+        "C09" => p_nrpn::replay_c09(sub, case),
+        "C10" => p_nrpn::replay_c10(sub, case),
+        "C11" => p_nrpn::replay_c11(sub, case),
         _ => None,
     }
 }
